@@ -78,7 +78,8 @@ def run(ctx):
             if a.split(" ")[2] != "-":
                 renamed_samples.append((t, unhex(a.split(" ")[2]).decode()))
         elif a.startswith("FAIL") or a.startswith("panic") or a.startswith("<"):
-            f = next((f for f in ctx.open_findings if f.get("signature", "").split(";")[0] in a), None)
+            f = next((f for f in ctx.open_findings
+                      if all(part.split(" (")[0].strip() in a for part in f.get("signature", "x").split(";"))), None)
             if f:
                 ctx.known(f); continue
             parts = a.split(" ")
